@@ -3,8 +3,9 @@ C01 — property theorems (MRS serialisations are lossless and stable).
 Only property statements live here; every proof is a reference to a lemma of CodecLemmas /
 SimpleLemmas / VarsLemmas / Lemmas / JsonLemmas, so a statement cannot be weakened quietly.
 
-Not proved (tied by the correspondence run and decided by the direct oracle only): the indented
-text layout of MRX, the MRX and JSON text level (library parameters).
+Not proved (tied by the correspondence run and decided by the direct oracle only): reading the MRX
+text back into a tree (etree.fromstring / iterparse) and the JSON text level (library parameters); the MRX writer and
+`_tostring`'s indentation are modelled (MrxText.lean) and compared with the real text.
 -/
 import Verif.Common.CodecLemmas
 import Verif.C01.Lemmas
@@ -23,6 +24,7 @@ import Verif.C01.LexToksLemmas
 import Verif.C01.LexLemmas
 import Verif.C01.DocsLemmas
 import Verif.C01.IxLayoutLemmas
+import Verif.C01.MrxTextLemmas
 
 namespace Verif.C01.P
 open Verif.Codec Verif.Tables Verif.C01
@@ -191,6 +193,20 @@ theorem mrx_stable_many (o : Opts) (ms : List MRS)
     (h : ∀ m ∈ ms, (m.vars.map (·.1)).Nodup ∧ ∀ vp ∈ m.vars, (vp.2.map (·.1)).Nodup) :
     toXmlList o (ms.map (decodedX o)) = toXmlList o ms := toXmlList_decodedX o ms h
 
+/-- MRX, TEXT level, "strings over all of Unicode": in the text the writer produces for element content and for
+attribute values no raw `<` or `>` (and in attribute values no raw `"`) is left, whatever the string — every `<` of
+the serialised text is therefore written by the writer as the start of a tag. -/
+theorem mrx_text_escapes (s : Str) :
+    (∀ c ∈ MrxT.escCdata s, c ≠ '<' ∧ c ≠ '>') ∧ (∀ c ∈ MrxT.escAttr s, c ≠ '<' ∧ c ≠ '>' ∧ c ≠ '"') :=
+  ⟨MrxT.escCdata_no_markup s, MrxT.escAttr_no_markup s⟩
+
+/-- "for every indentation setting" (MRX, TEXT level): for every width, offset and text, the `re.sub` of
+`mrx._tostring` (`indentGo`, compared with the real indented `encode`/`dumps` text on every generated case) changes the
+serialised text only by inserting runs of blanks and line feeds directly before `<` characters (`Ins`) — no character
+is removed, reordered or inserted anywhere else. -/
+theorem mrx_indent_only_inserts (n off fuel : Nat) (s : Str) : MrxT.Ins s (MrxT.indentGo n off fuel s) :=
+  MrxT.indentGo_ins n off fuel s
+
 /-! ## Indexed MRS, token level, relative to a SEM-I that covers the structure -/
 
 /-- "… and Indexed MRS relative to a SEM-I that covers the structure, where property values compare
@@ -287,6 +303,29 @@ theorem indexed_text_roundtrip_many (semi : Ix.SemI) (o : Opts) (items : List (M
     intro t ht
     obtain ⟨p, hp, htp⟩ := List.mem_flatMap.1 ht
     exact (IxLex.toksIx_ok semi o p.1 p.2 (hl p hp) (h p hp).2.2.2.2).1 t htp
+  refine ⟨hlex, ?_⟩
+  obtain ⟨ds, hd, ha⟩ := Ix.parseManyIx_toksIx semi o items h (items.length + 1) (Nat.le_refl _)
+  exact ⟨ds, by rw [hlex]; simp [hd], ha⟩
+
+/-- "single items and multi-item documents", indent off (Indexed MRS, TEXT level, `dumps`/`loads` with indent
+None/False: the items' un-indented texts joined by one blank — `renderIxDoc` of the items' tokens in a row, compared
+with the real `dumps` text on every generated case): the lexer reads the document back as the concatenation of the
+items' token lists, and the list decoder returns one structure per item, each decoded as its item. -/
+theorem indexed_text_roundtrip_document (semi : Ix.SemI) (o : Opts) (items : List (MRS × List Ix.TI))
+    (hl : ∀ p ∈ items, IxLex.LexExprI semi o p.1) (h : ∀ p ∈ items, Ix.OkItem semi o p.1 p.2) :
+    IxLex.lexIx (IxLex.renderIxDoc (items.flatMap (·.2))) = some (items.flatMap (·.2))
+    ∧ ∃ ds, (IxLex.lexIx (IxLex.renderIxDoc (items.flatMap (·.2)))).map (Ix.parseManyIx semi (items.length + 1)) = some (.ok ds)
+        ∧ Ix.All2 (Ix.DecodedAs semi o) (items.map (·.1)) ds := by
+  have hlex : IxLex.lexIx (IxLex.renderIxDoc (items.flatMap (·.2))) = some (items.flatMap (·.2)) := by
+    apply IxLex.lexIx_renderIxDoc
+    · intro t ht
+      obtain ⟨p, hp, htp⟩ := List.mem_flatMap.1 ht
+      exact (IxLex.toksIx_ok semi o p.1 p.2 (hl p hp) (h p hp).2.2.2.2).1 t htp
+    · rw [List.flatMap_def]
+      apply IxLayL.LaOK_flatten
+      intro ts hts
+      obtain ⟨p, hp, rfl⟩ := List.mem_map.1 hts
+      exact (IxLex.toksIx_ok semi o p.1 p.2 (hl p hp) (h p hp).2.2.2.2).2
   refine ⟨hlex, ?_⟩
   obtain ⟨ds, hd, ha⟩ := Ix.parseManyIx_toksIx semi o items h (items.length + 1) (Nat.le_refl _)
   exact ⟨ds, by rw [hlex]; simp [hd], ha⟩
@@ -859,5 +898,9 @@ example : ∃ ts, Ix.toksIx exSemi ⟨true, true⟩ exI = .ok ts ∧ IxLex.lexIx
   cases h : Ix.toksIx exSemi ⟨true, true⟩ exI with
   | error e => have := exI_toks; rw [h] at this; cases this
   | ok ts => exact ⟨ts, rfl, indexed_lex_indented exSemi _ exI ts 7 exI_lexExprI h⟩
+
+/-- the indented text the model produces for a one-label structure (`encode(…, indent=2)`). -/
+example : MrxT.mrxText (some 2) 0 (toXml ⟨false, false⟩ (mkMRS (some "h0".toList) none [] [] [] [] .unspec none none))
+    = "<mrs><label vid=\"0\" />\n    </mrs>".toList := by decide
 
 end Verif.C01.P
